@@ -197,6 +197,7 @@ ROUND7 = {
  "C12": "CLI tier: the file added below an applied one, first attempt with --exec-order non-linear (its partial revision is not the newest); next run non-linear (same expectations) or linear with a newer pending file (refused, nothing executed).",
  "C15": "MySQL ENUM and SET columns carrying their own character set / collation.",
  "C16": "Inspected serial column in the PostgreSQL base (serial <-> integer retypes plan sequence statements).",
+ "C17": "Sub-check fk-graphs-reverse: MySQL / PostgreSQL plans over foreign-key graphs (every graph of up to 3 tables, random ones of 5-8, flavours, two schemas) are replayed on C04's reference catalogue followed by their reverse statements, last change first: each must respect the dependency rules and the initial tables and keys must be back (one finding recorded).",
  "C19": "One to three patterns in the exclude list of the CLI tier (a resource matched by a later pattern only).",
  "C20": "The same HCL files evaluated 24 times under names that share one base name in several directories.",
 }
